@@ -70,6 +70,9 @@ def app_seeds():
         ("ghost", b"Gh0st\x00\x01\x02", True, True),
         ("stun-empty", stun_req(), True, True),
         ("stun-change-port", stun_req(attrs=cr), True, True),
+        ("stun-change-ip", stun_req(attrs=stun_attr(3, struct.pack("!I", 4))), True, True),
+        ("stun-change-both", stun_req(attrs=stun_attr(3, struct.pack("!I", 6))), True, True),
+        ("stun-change-all-bits", stun_req(attrs=stun_attr(3, struct.pack("!I", 7))), True, True),
         ("stun-magic-long", stun_req(attrs=stun_attr(0x8022, b"x" * 252) + cr, magic=True), True, True),
         ("dns", dns_query(), False, True),
         ("dns-2q", dns_query(names=(b"a.b", b"c.d.e")), False, True),
@@ -242,6 +245,10 @@ def hostile_requests(rng):
         total = struct.unpack("!H", f[16:18])[0]
         for t in (total - 1, total + 1, 20, 0, 65535):
             fr.append(patch(f, 16, struct.pack("!H", t & 0xFFFF)))
+    for ihl in (0, 1, 3, 4):       # header length field below the minimum (the datagram still has 20 header bytes)
+        fr.append(net.eth(net.MAC_SELF, net.MAC_PEER, 0x0800, net.ipv4(s4, d4, 1, net.icmp4(8, 0, b"\x12\x34\0\x01abcd"), ihl=ihl)))
+        fr.append(net.eth(net.MAC_SELF, net.MAC_PEER, 0x0800,
+                          net.ipv4(s4, d4, 17, net.udp(net.ip_bytes(s4), net.ip_bytes(d4), 5, 53, dns_query()), ihl=ihl)))
     for ihl in (6, 7, 15):
         opts = b"\x01" * (4 * (ihl - 5))
         fr.append(net.eth(net.MAC_SELF, net.MAC_PEER, 0x0800, net.ipv4(s4, d4, 1, net.icmp4(8, 0, b"\x12\x34\0\x01abcd"), ihl=ihl, options=opts)))
@@ -257,4 +264,51 @@ def hostile_requests(rng):
         plen = struct.unpack("!H", f[18:20])[0]
         for t in (plen - 1, plen + 1, 0, 8):
             fr.append(patch(f, 18, struct.pack("!H", t & 0xFFFF)))
+    return fr
+
+
+def control_on_established(rng, key, v6_too=True):
+    """Control segments on flows that already hold connection state, and data in unusual segments:
+    every flow is validated by a first data segment (the first half of a split HTTP request, or an RPC call), then
+    receives one of RST, RST|ACK, FIN|ACK, FIN, SYN, SYN|ACK, bare ACK, URG|ACK, SYN|PSH|ACK -- with and without a payload, with
+    the cookie acknowledgement and with a stale one --, then the rest of the request. Also: SYNs that carry data on
+    fresh flows, empty PSH|ACK segments with a wrong acknowledgement, the same 4-tuple re-used after FIN|ACK + SYN by
+    another protocol. None of the control segments may create, delete or alter per-flow state, and what is answered
+    afterwards must not depend on them."""
+    fr, sport = [], 20000 + rng.randrange(1000)
+    half1, half2 = b"GET /index.html HT", b"TP/1.1\r\nHost: a\r\n\r\n"
+    ctrl = [0x04, 0x14, 0x11, 0x01, 0x02, 0x12, 0x10, 0x30, 0x1a, 0x0c, 0x42, 0x82]
+    for v6 in ([False, True] if v6_too else [False]):
+        s, d = addr_pair(v6)
+        for fl in ctrl:
+            for payload in (b"", b"HTTP/1.1 200 OK\r\n\r\n"):
+                for good_ack in (True, False):
+                    sport += 1
+                    ck = net.cookie(key, s, d, sport, 80)
+                    ack = (ck + 1) & 0xFFFFFFFF if good_ack else (ck + 1 + len(half1)) & 0xFFFFFFFF
+                    hs = handshake(key, s, d, sport, 80, [half1])
+                    fr += hs
+                    fr.append(net.frame_tcp(s, d, sport, 80, 1001 + len(half1), ack, fl, payload))
+                    fr.append(net.frame_tcp(s, d, sport, 80, 1001 + len(half1), (ck + 1) & 0xFFFFFFFF, 0x18, half2))
+        # SYN with data on a fresh flow (all allowed SYN flag sets), then the normal exchange
+        for fl in (0x02, 0x0a, 0x22, 0x42, 0x82, 0x2a):
+            sport += 1
+            fr.append(net.frame_tcp(s, d, sport, 22, 77, 0, fl, b"SSH-2.0-early\r\n"))
+            fr += handshake(key, s, d, sport, 22, [b"SSH-2.0-x\r\n"])[1:]
+        # empty PSH|ACK with wrong / zero / right acknowledgement on an unvalidated flow
+        for ack_of in (lambda ck: 0, lambda ck: ck, lambda ck: (ck + 2) & 0xFFFFFFFF, lambda ck: (ck + 1) & 0xFFFFFFFF):
+            sport += 1
+            ck = net.cookie(key, s, d, sport, 80)
+            fr.append(net.frame_tcp(s, d, sport, 80, 5, ack_of(ck), 0x18, b""))
+            fr.append(net.frame_tcp(s, d, sport, 80, 5, (ck + 1) & 0xFFFFFFFF, 0x18, http_req()))
+        # the same 4-tuple closed and re-used by another protocol
+        for first, second in ((http_req(), rpc_call(xid=0x81000001, tcp=True)), (rpc_call(xid=0x81000002, tcp=True), http_req()),
+                              (b"SSH-2.0-a\r\n", http_req())):
+            for closer in ([0x11], [0x11, 0x02], [0x04, 0x02], [0x02]):
+                sport += 1
+                ck = net.cookie(key, s, d, sport, 111)
+                fr += handshake(key, s, d, sport, 111, [first])
+                for fl in closer:
+                    fr.append(net.frame_tcp(s, d, sport, 111, 2000, (ck + 1) & 0xFFFFFFFF if fl != 0x02 else 0, fl))
+                fr.append(net.frame_tcp(s, d, sport, 111, 2001, (ck + 1) & 0xFFFFFFFF, 0x18, second))
     return fr
